@@ -1,0 +1,110 @@
+//go:build verif
+
+// Contracts for package unserializers, read by /verif/govc (comment-only file).
+package unserializers
+
+// ---------------------------------------------------------------------------
+// C01: SPDX tables are inverse to the serializer's tables
+// ---------------------------------------------------------------------------
+
+//@ table spdxIdentifierRoundTrip [C01]: forall i sbom.SoftwareIdentifierType, r *v2_3.PackageExternalReference :: 1 <= i && i <= 4 && r != nil && r.Category == sbom.SoftwareIdentifierType.ToSPDX2Category(i) && r.RefType == sbom.SoftwareIdentifierType.ToSPDX2Type(i) ==> proj(SPDX23.extRefToProtobomEnum(nil, r), 1) == true && proj(SPDX23.extRefToProtobomEnum(nil, r), 2) == nil && SPDX23.extRefTypeToIdentifierType(nil, r.RefType) == i
+
+//@ table spdxExtRefTypeRoundTrip [C01]: forall e *sbom.ExternalReference, r *v2_3.PackageExternalReference :: e != nil && r != nil && (e.Type == 4 || e.Type == 26 || e.Type == 29 || e.Type == 30 || e.Type == 31 || e.Type == 44 || e.Type == 46 || e.Type == 47) && r.Category == serializers.SPDX23.extRefCategoryFromProtobomExtRef(nil, e) && r.RefType == serializers.SPDX23.extRefTypeFromProtobomExtRef(nil, e) ==> proj(SPDX23.extRefToProtobomEnum(nil, r), 0) == e.Type && proj(SPDX23.extRefToProtobomEnum(nil, r), 1) == false && proj(SPDX23.extRefToProtobomEnum(nil, r), 2) == nil
+
+// ---------------------------------------------------------------------------
+// C02: CycloneDX tables are inverse to the serializer's tables
+// ---------------------------------------------------------------------------
+
+//@ table cdxHashAlgoRoundTrip [C02]: forall h sbom.HashAlgorithm :: 1 <= h && h <= 12 ==> proj(serializers.CDX.protoHashAlgoToCdxAlgo(nil, h), 1) == nil && CDX.cdxHashAlgoToProtobomAlgo(nil, proj(serializers.CDX.protoHashAlgoToCdxAlgo(nil, h), 0)) == h && sbom.HashAlgorithmFromCDX(proj(serializers.CDX.protoHashAlgoToCdxAlgo(nil, h), 0)) == h
+
+//@ table cdxExtRefTypeNative [C02]: forall t sbom.ExternalReference_ExternalReferenceType :: (t == 1 || t == 3 || (5 <= t && t <= 15) || t == 17 || t == 19 || (21 <= t && t <= 25) || t == 28 || t == 32 || t == 37 || (39 <= t && t <= 41) || (43 <= t && t <= 45) || t == 48 || t == 51 || t == 52 || (54 <= t && t <= 57) || t == 59 || t == 60) ==> serializers.CDX.protobomExtRefTypeToCdxType(nil, t) != "other"
+
+//@ table cdxExtRefTypeRoundTrip [C02]: forall t sbom.ExternalReference_ExternalReferenceType :: 0 <= t && t <= 60 && (serializers.CDX.protobomExtRefTypeToCdxType(nil, t) != "other" || t == 31) ==> CDX.cdxExtRefTypeToProtobomType(nil, serializers.CDX.protobomExtRefTypeToCdxType(nil, t)) == t
+
+//@ table cdxComponentTypeRoundTrip [C02]: forall p sbom.Purpose :: (p == 1 || p == 14 || p == 16 || p == 5 || p == 24 || p == 21 || p == 7 || p == 8 || p == 13 || p == 12 || p == 17 || p == 6) ==> proj(serializers.CDX.purposeToComponentType(nil, p), 1) == nil && CDX.componentTypeToPurpose(nil, proj(serializers.CDX.purposeToComponentType(nil, p), 0)) == p
+
+// ---------------------------------------------------------------------------
+// C04: parsers are total. The decoded native document is an ARBITRARY value of
+// its Go type (any pointer may be nil, any slice any length, pointer elements
+// may be nil): that is the trusted contract of the third-party decoders.
+// ---------------------------------------------------------------------------
+
+//@ func CDX.Unserialize
+//@   props C04
+// (no assigns clause: the frame of this function is not claimed; the interface contract of native.Unserializer is what callers use)
+//@   invariant L1: doc != nil && fresh(doc) && doc.NodeList != nil && fresh(doc.NodeList) && sbom.validNL(doc.NodeList) && doc.Metadata != nil
+//@   ensures [C04:unserialize:oneOf] (result1 == nil) != (result0 == nil)
+//@   ensures [C04:unserialize:complete] result1 == nil ==> result0.Metadata != nil && result0.NodeList != nil
+
+//@ func CDX.componentToNodeList
+//@   props C04
+//@   requires component != nil && cc != nil
+//@   assigns cc.*
+//@   owns
+//@   ensures [C04:componentToNodeList:oneOf] (result1 == nil) != (result0 == nil)
+//@   ensures [C04:componentToNodeList:valid] result1 == nil ==> sbom.validNL(result0) && fresh(result0)
+//@   invariant L0: sbom.validNL(nl) && fresh(nl) && node != nil
+//@   invariant L0: (arr(nl.Nodes) == nil || fresh(arr(nl.Nodes))) && (arr(nl.Edges) == nil || fresh(arr(nl.Edges))) && (arr(nl.RootElements) == nil || fresh(arr(nl.RootElements)))
+
+//@ func SPDX23.Unserialize
+//@   props C04, C03
+//@   assigns \nothing
+//@   ensures [C04:unserialize:oneOf] (result1 == nil) != (result0 == nil)
+//@   ensures [C04:unserialize:complete] result1 == nil ==> result0.Metadata != nil && result0.NodeList != nil
+//@   ensures [C03:spdx:read:roots] result1 == nil ==> (forall j int :: 0 <= j && j < len(spdxdoc(r).Relationships) && (spdxdoc(r).Relationships[j].RefA.ElementRefID == "DOCUMENT" && strings.EqualFold(spdxdoc(r).Relationships[j].Relationship, "DESCRIBES")) ==> (spdxdoc(r).Relationships[j].RefB.ElementRefID in elems(result0.NodeList.RootElements)))
+//@   invariant L3: [C03:inv] forall j int :: 0 <= j && j < _i && (spdxDoc.Relationships[j].RefA.ElementRefID == "DOCUMENT" && strings.EqualFold(spdxDoc.Relationships[j].Relationship, "DESCRIBES")) ==> (spdxDoc.Relationships[j].RefB.ElementRefID in elems(bom.NodeList.RootElements))
+//@   ensures [C03:spdx:read:packages] result1 == nil ==> (forall i int :: 0 <= i && i < len(spdxdoc(r).Packages) && spdxdoc(r).Packages[i] != nil ==> (spdxdoc(r).Packages[i].PackageSPDXIdentifier in fieldset(result0.NodeList.Nodes, Id)))
+//@   ensures [C03:spdx:read:files] result1 == nil ==> (forall i int :: 0 <= i && i < len(spdxdoc(r).Files) && spdxdoc(r).Files[i] != nil ==> (spdxdoc(r).Files[i].FileSPDXIdentifier in fieldset(result0.NodeList.Nodes, Id)))
+//@   invariant L1: bom != nil && fresh(bom) && bom.NodeList != nil && fresh(bom.NodeList) && (cap(bom.NodeList.Nodes) == 0 || fresh(arr(bom.NodeList.Nodes))) && (cap(bom.NodeList.Edges) == 0 || fresh(arr(bom.NodeList.Edges))) && (cap(bom.NodeList.RootElements) == 0 || fresh(arr(bom.NodeList.RootElements)))
+//@   invariant L2: bom != nil && fresh(bom) && bom.NodeList != nil && fresh(bom.NodeList) && (cap(bom.NodeList.Nodes) == 0 || fresh(arr(bom.NodeList.Nodes))) && (cap(bom.NodeList.Edges) == 0 || fresh(arr(bom.NodeList.Edges))) && (cap(bom.NodeList.RootElements) == 0 || fresh(arr(bom.NodeList.RootElements)))
+//@   invariant L3: bom != nil && fresh(bom) && bom.NodeList != nil && fresh(bom.NodeList) && (cap(bom.NodeList.Nodes) == 0 || fresh(arr(bom.NodeList.Nodes))) && (cap(bom.NodeList.Edges) == 0 || fresh(arr(bom.NodeList.Edges))) && (cap(bom.NodeList.RootElements) == 0 || fresh(arr(bom.NodeList.RootElements)))
+//@   invariant L1: [C03:inv] spdxDoc == spdxdoc(r) && bom != nil && bom.NodeList != nil && (forall i int :: 0 <= i && i < _i && spdxDoc.Packages[i] != nil ==> (spdxDoc.Packages[i].PackageSPDXIdentifier in fieldset(bom.NodeList.Nodes, Id)))
+//@   invariant L2: [C03:inv] spdxDoc == spdxdoc(r) && bom != nil && bom.NodeList != nil && (forall i int :: 0 <= i && i < len(spdxDoc.Packages) && spdxDoc.Packages[i] != nil ==> (spdxDoc.Packages[i].PackageSPDXIdentifier in fieldset(bom.NodeList.Nodes, Id))) && (forall i int :: 0 <= i && i < _i && spdxDoc.Files[i] != nil ==> (spdxDoc.Files[i].FileSPDXIdentifier in fieldset(bom.NodeList.Nodes, Id)))
+//@   invariant L3: [C03:inv] spdxDoc == spdxdoc(r) && bom != nil && bom.NodeList != nil && (forall i int :: 0 <= i && i < len(spdxDoc.Packages) && spdxDoc.Packages[i] != nil ==> (spdxDoc.Packages[i].PackageSPDXIdentifier in fieldset(bom.NodeList.Nodes, Id))) && (forall i int :: 0 <= i && i < len(spdxDoc.Files) && spdxDoc.Files[i] != nil ==> (spdxDoc.Files[i].FileSPDXIdentifier in fieldset(bom.NodeList.Nodes, Id)))
+
+// ---------------------------------------------------------------------------
+// C01: where each attribute of an SPDX package lands in the node (reader side)
+// ---------------------------------------------------------------------------
+//@ pred spdxNodeOf(m *sbom.Node, p *v2_3.Package) = m.Id == p.PackageSPDXIdentifier && m.Type == 0 && m.Name == p.PackageName && m.Version == p.PackageVersion && m.FileName == p.PackageFileName && m.UrlHome == p.PackageHomePage && m.UrlDownload == p.PackageDownloadLocation && m.LicenseComments == p.PackageLicenseComments && m.Copyright == p.PackageCopyrightText && m.SourceInfo == p.PackageSourceInfo && m.Comment == p.PackageComment && m.Summary == p.PackageSummary && m.Description == p.PackageDescription && m.LicenseConcluded == ((p.PackageLicenseConcluded != "NOASSERTION" && p.PackageLicenseConcluded != "") ? p.PackageLicenseConcluded : "")
+
+// writer contract + reader contract ==> the scalar attributes survive (JSON layer: trusted identity on these fields)
+//@ lemma spdxPackageScalarsRoundTrip [C01]: forall p *v2_3.Package, n *sbom.Node, m *sbom.Node :: p != nil && n != nil && m != nil && serializers.spdxPkgOf(p, n) && spdxNodeOf(m, p) ==> m.Id == n.Id && m.Type == 0 && m.Name == n.Name && m.Version == n.Version && m.FileName == n.FileName && m.UrlHome == n.UrlHome && m.LicenseComments == n.LicenseComments && m.SourceInfo == n.SourceInfo && m.Comment == n.Comment && m.Summary == n.Summary && m.Description == n.Description && m.UrlDownload == (n.UrlDownload == "" ? "NOASSERTION" : n.UrlDownload) && (n.LicenseConcluded != "NOASSERTION" ==> m.LicenseConcluded == n.LicenseConcluded)
+
+//@ func SPDX23.packageToNode
+//@   props C01
+//@   inline
+//@   requires [C01:pre] p != nil
+//@   ensures [C01:spdx:node:scalars] result != nil && spdxNodeOf(result, p)
+//@   ensures [C01:spdx:node:licenseConcluded] result.LicenseConcluded == ((p.PackageLicenseConcluded != "NOASSERTION" && p.PackageLicenseConcluded != "") ? p.PackageLicenseConcluded : "")
+//@   ensures [C01:spdx:node:people] (p.PackageSupplier != nil && p.PackageSupplier.Supplier != "NOASSERTION" ==> len(result.Suppliers) == 1 && result.Suppliers[0] != nil && result.Suppliers[0].Name == p.PackageSupplier.Supplier && (result.Suppliers[0].IsOrg <==> p.PackageSupplier.SupplierType == "Organization")) && (p.PackageOriginator != nil && p.PackageOriginator.Originator != "NOASSERTION" && p.PackageOriginator.Originator != "" ==> len(result.Originators) == 1 && result.Originators[0] != nil && result.Originators[0].Name == p.PackageOriginator.Originator && (result.Originators[0].IsOrg <==> p.PackageOriginator.OriginatorType == "Organization"))
+
+//@ pred spdxFileNodeOf(m *sbom.Node, f *v2_3.File) = m.Id == f.FileSPDXIdentifier && m.Type == 1 && m.Name == f.FileName && m.LicenseConcluded == f.LicenseConcluded && m.LicenseComments == f.LicenseComments && m.Copyright == f.FileCopyrightText && m.Comment == f.FileComment && m.FileTypes == f.FileTypes && m.Licenses == f.LicenseInfoInFiles
+
+//@ lemma spdxFileScalarsRoundTrip [C01]: forall f *v2_3.File, n *sbom.Node, m *sbom.Node :: f != nil && n != nil && m != nil && serializers.spdxFileOf(f, n) && spdxFileNodeOf(m, f) ==> m.Id == n.Id && m.Type == 1 && m.Name == n.Name && m.LicenseConcluded == n.LicenseConcluded && m.LicenseComments == n.LicenseComments && m.Comment == n.Comment && m.FileTypes == n.FileTypes
+
+//@ func SPDX23.fileToNode
+//@   props C01
+//@   inline
+//@   requires [C01:pre] f != nil
+//@   ensures [C01:spdx:filenode:scalars] result != nil && spdxFileNodeOf(result, f)
+
+// ---------------------------------------------------------------------------
+// C02: where each attribute of a CycloneDX component lands in the node (reader side)
+// ---------------------------------------------------------------------------
+//@ func CDX.componentTypeToPurpose
+//@   props C02
+//@   shadow
+
+//@ pred cdxNodeOf(m *sbom.Node, c *cyclonedx.Component) = (c.BOMRef != "" ==> m.Id == c.BOMRef) && m.Name == c.Name && m.Version == c.Version && m.Copyright == c.Copyright && m.Description == c.Description && m.Identifiers != nil && (c.PackageURL != "" ==> (1 in m.Identifiers) && m.Identifiers[1] == c.PackageURL) && ((m.Type == 1) <==> (CDX.componentTypeToPurpose(nil, c.Type) == 12)) && (m.Type == 0 || m.Type == 1)
+
+//@ func CDX.componentToNode
+//@   props C02
+//@   inline
+//@   requires [C02:pre] c != nil && cc != nil
+//@   ensures [C02:cdx:node:scalars] result1 == nil && result0 != nil && cdxNodeOf(result0, c)
+//@   invariant L0: [C02:inv] node != nil && fresh(node) && node.Identifiers != nil && node.Hashes != nil && node.Identifiers != node.Hashes
+//@   invariant L0: [C02:inv] c.PackageURL != "" ==> (1 in node.Identifiers) && node.Identifiers[1] == c.PackageURL
+
+// writer contract + reader contract ==> the scalar attributes, the purl and the file kind survive
+// (JSON layer: trusted identity on these fields); sbom.Purpose_FILE == 12
+//@ lemma cdxComponentScalarsRoundTrip [C02]: forall c *cyclonedx.Component, n *sbom.Node, m *sbom.Node :: c != nil && n != nil && m != nil && n.Id != "" && serializers.cdxCompOf(c, n) && cdxNodeOf(m, c) ==> m.Id == n.Id && m.Name == n.Name && m.Version == n.Version && m.Description == n.Description && m.Copyright == n.Copyright && ((n.Identifiers != nil && (1 in n.Identifiers) && n.Identifiers[1] != "") ==> (1 in m.Identifiers) && m.Identifiers[1] == n.Identifiers[1]) && (n.Type == 1 && CDX.componentTypeToPurpose(nil, "file") == 12 ==> m.Type == 1)
